@@ -6,6 +6,19 @@
     operators of the source ([&] = [N.land], [<<] = [N.shiftl], [>>] = [N.shiftr]).
     The solver uses no square root anywhere.
 
+    Every solver function exists in a traced form [..._t] that additionally returns the
+    list of branch codes it went through (for measuring branch coverage of the model
+    runs); the plain function is BY DEFINITION the traced one with the trace dropped.
+    Branch codes:
+      line      1 degenerate, a closer | 2 degenerate, b closer | 3 regular (barycentric)
+                4 v <= 0 -> a | 5 u <= 0 -> b | 6 interior
+      triangle  7 bc shorter than ac | 8 not;  10 degenerate (then: trace of edge AB, trace
+                of edge AC, 11 AC better | 12 not, trace of edge BC, 13 BC better | 14 not)
+                20 A | 21 B | 22 AB | 23 C | 24 AC | 25 BC | 26 face interior
+      planes    30 signd all > 0 | 31 all < 0 | 32 mixed
+      tetra     40+i face i examined (followed by the triangle's trace) | 44+i face i skipped
+                51..53 face i better | 55..57 face i not better
+      top       60 success | 61 v_len_sq >= prev_v_len_sqr  
     Literals:
     - [EPSILON = np.finfo(float).eps] = 2^-52 exactly;
     - [EPSILON_SQR = EPSILON * EPSILON] (a product in the source, a product here;
@@ -32,18 +45,22 @@ Section Simplex.
   (** [scalar_triple_product(a, b, c)] of distance3d/utils.py: [np.dot(a, np.cross(b, c))] *)
   Definition scalar_triple_product (a b c : V3 F) : F := dot a (cross b c).
 
+  Definition trace := list N.
+
   (** lines 291-312 *)
-  Definition get_barycentric_coordinates_line (a b : V3 F) : F * F :=
+  Definition get_barycentric_coordinates_line_t (a b : V3 F) : F * F * trace :=
     let ab := vsub b a in
     let denominator := dot ab ab in
     if denominator <? EPSILON_SQR then
       (* Degenerate line segment, fallback to points *)
-      if dot a a <? dot b b then (one, zero)      (* A closest *)
-      else (zero, one)                            (* B closest *)
+      if dot a a <? dot b b then (one, zero, [1%N])      (* A closest *)
+      else (zero, one, [2%N])                            (* B closest *)
     else
       let v := (- dot a ab) / denominator in
       let u := one - v in
-      (u, v).
+      (u, v, [3%N]).
+  Definition get_barycentric_coordinates_line (a b : V3 F) : F * F :=
+    fst (get_barycentric_coordinates_line_t a b).
 
   (** lines 315-372 *)
   Definition get_barycentric_coordinates_plane (a b c : V3 F) : F * F * F :=
@@ -97,66 +114,68 @@ Section Simplex.
     (va6 * v6, vb6 * v6, vc6 * v6, vd6 * v6).
 
   (** lines 393-412 *)
-  Definition closest_point_line (a b : V3 F) : V3 F * N :=
-    let '(u, v) := get_barycentric_coordinates_line a b in
-    if v <=? zero then (a, 1%N)                        (* a is closest point *)
-    else if u <=? zero then (b, 2%N)                   (* b is closest point *)
-    else (vadd (vscale u a) (vscale v b), 3%N).        (* u * a + v * b *)
+  Definition closest_point_line_t (a b : V3 F) : V3 F * N * trace :=
+    let '(u, v, t) := get_barycentric_coordinates_line_t a b in
+    if v <=? zero then (a, 1%N, t ++ [4%N])                        (* a is closest point *)
+    else if u <=? zero then (b, 2%N, t ++ [5%N])                   (* b is closest point *)
+    else (vadd (vscale u a) (vscale v b), 3%N, t ++ [6%N]).        (* u * a + v * b *)
+  Definition closest_point_line (a b : V3 F) : V3 F * N := fst (closest_point_line_t a b).
 
   (** lines 415-523 *)
-  Definition closest_point_triangle (a b c : V3 F) : V3 F * N :=
+  Definition closest_point_triangle_t (a b c : V3 F) : V3 F * N * trace :=
     let ab := vsub b a in
     let ac := vsub c a in
     let bc := vsub c b in
     let bc_shorter_than_ac := dot bc bc <? dot ac ac in
     let n := if bc_shorter_than_ac then cross ab bc else cross ab ac in
+    let t0 : trace := if bc_shorter_than_ac then [7%N] else [8%N] in
     let n_len_sq := dot n n in
     if n_len_sq <? EPSILON_SQR then
       (* Degenerate, fallback to edges *)
       (* Edge AB *)
-      let '(closest_point, closest_set) := closest_point_line a b in
+      let '(closest_point, closest_set, t1) := closest_point_line_t a b in
       let best_dist_sq := dot closest_point closest_point in
       (* Edge AC *)
-      let '(q, new_set) := closest_point_line a c in
+      let '(q, new_set, t2) := closest_point_line_t a c in
       let dist_sq := dot q q in
-      let '(closest_point, best_dist_sq, closest_set) :=
+      let '(closest_point, best_dist_sq, closest_set, t3) :=
         if dist_sq <? best_dist_sq then
-          (q, dist_sq, (N.land new_set 1 + N.shiftl (N.land new_set 2) 1)%N)
-        else (closest_point, best_dist_sq, closest_set) in
+          (q, dist_sq, (N.land new_set 1 + N.shiftl (N.land new_set 2) 1)%N, [11%N])
+        else (closest_point, best_dist_sq, closest_set, [12%N]) in
       (* Edge BC *)
-      let '(q, new_set) := closest_point_line b c in
+      let '(q, new_set, t4) := closest_point_line_t b c in
       let dist_sq := dot q q in
-      let '(closest_point, closest_set) :=
-        if dist_sq <? best_dist_sq then (q, N.shiftl new_set 1)
-        else (closest_point, closest_set) in
-      (closest_point, closest_set)
+      let '(closest_point, closest_set, t5) :=
+        if dist_sq <? best_dist_sq then (q, N.shiftl new_set 1, [13%N])
+        else (closest_point, closest_set, [14%N]) in
+      (closest_point, closest_set, t0 ++ [10%N] ++ t1 ++ t2 ++ t3 ++ t4 ++ t5)
     else
     (* Check if P in vertex region outside A *)
     let ap := vneg a in
     let d1 := dot ab ap in
     let d2 := dot ac ap in
-    if (d1 <=? zero) && (d2 <=? zero) then (a, 1%N) else
+    if (d1 <=? zero) && (d2 <=? zero) then (a, 1%N, t0 ++ [20%N]) else
     (* Check if P in vertex region outside B *)
     let bp := vneg b in
     let d3 := dot ab bp in
     let d4 := dot ac bp in
-    if (zero <=? d3) && (d4 <=? d3) then (b, 2%N) else
+    if (zero <=? d3) && (d4 <=? d3) then (b, 2%N, t0 ++ [21%N]) else
     (* Check if P in edge region of AB *)
     let vc := d1 * d4 - d3 * d2 in
     if (vc <=? zero) && (zero <=? d1) && (d3 <=? zero) then
       let v := d1 / (d1 - d3) in
-      (vadd a (vscale v ab), 3%N)
+      (vadd a (vscale v ab), 3%N, t0 ++ [22%N])
     else
     (* Check if P in vertex region outside C *)
     let cp := vneg c in
     let d5 := dot ab cp in
     let d6 := dot ac cp in
-    if (zero <=? d6) && (d5 <=? d6) then (c, 4%N) else
+    if (zero <=? d6) && (d5 <=? d6) then (c, 4%N, t0 ++ [23%N]) else
     (* Check if P in edge region of AC *)
     let vb := d5 * d2 - d1 * d6 in
     if (vb <=? zero) && (zero <=? d2) && (d6 <=? zero) then
       let w := d2 / (d2 - d6) in
-      (vadd a (vscale w ac), 5%N)
+      (vadd a (vscale w ac), 5%N, t0 ++ [24%N])
     else
     (* Check if P in edge region of BC *)
     let va := d3 * d6 - d5 * d4 in
@@ -164,13 +183,15 @@ Section Simplex.
     let d5_d6 := d5 - d6 in
     if (va <=? zero) && (zero <=? d4_d3) && (zero <=? d5_d6) then
       let w := d4_d3 / (d4_d3 + d5_d6) in
-      (vadd b (vscale w bc), 6%N)
+      (vadd b (vscale w bc), 6%N, t0 ++ [25%N])
     else
     (* P inside face region: n * (a + b + c).dot(n) / (3.0 * n_len_sq) *)
-    (vdivs (vscale (dot (vadd (vadd a b) c) n) n) (three * n_len_sq), 7%N).
+    (vdivs (vscale (dot (vadd (vadd a b) c) n) n) (three * n_len_sq), 7%N, t0 ++ [26%N]).
+  Definition closest_point_triangle (a b c : V3 F) : V3 F * N := fst (closest_point_triangle_t a b c).
 
   (** lines 526-570; the four booleans in the order of the source array *)
-  Definition origin_outside_of_tetrahedron_planes (a b c d : V3 F) : bool * bool * bool * bool :=
+  Definition origin_outside_of_tetrahedron_planes_t (a b c d : V3 F)
+    : bool * bool * bool * bool * trace :=
     let ab := vsub b a in
     let ac := vsub c a in
     let ad := vsub d a in
@@ -191,52 +212,57 @@ Section Simplex.
     let signd2 := dot ac ad_cross_ab in
     let signd3 := - dot ab bd_cross_bc in
     if (zero <? signd0) && (zero <? signd1) && (zero <? signd2) && (zero <? signd3) then
-      (- EPSILON <=? signp0, - EPSILON <=? signp1, - EPSILON <=? signp2, - EPSILON <=? signp3)
+      (- EPSILON <=? signp0, - EPSILON <=? signp1, - EPSILON <=? signp2, - EPSILON <=? signp3, [30%N])
     else if (signd0 <? zero) && (signd1 <? zero) && (signd2 <? zero) && (signd3 <? zero) then
-      (signp0 <=? EPSILON, signp1 <=? EPSILON, signp2 <=? EPSILON, signp3 <=? EPSILON)
+      (signp0 <=? EPSILON, signp1 <=? EPSILON, signp2 <=? EPSILON, signp3 <=? EPSILON, [31%N])
     else
-      (true, true, true, true).     (* Mixed signs, degenerate tetrahedron *)
+      (true, true, true, true, [32%N]).     (* Mixed signs, degenerate tetrahedron *)
+  Definition origin_outside_of_tetrahedron_planes (a b c d : V3 F) : bool * bool * bool * bool :=
+    fst (origin_outside_of_tetrahedron_planes_t a b c d).
 
   (** lines 573-631 *)
-  Definition closest_point_tetrahedron (a b c d : V3 F) : V3 F * N :=
+  Definition closest_point_tetrahedron_t (a b c d : V3 F) : V3 F * N * trace :=
     let closest_set := 15%N in
     let closest_point := vzero in
     let best_dist_sq := MAX_FLOAT in
-    let '(oop0, oop1, oop2, oop3) := origin_outside_of_tetrahedron_planes a b c d in
+    let '(oop0, oop1, oop2, oop3, tp) := origin_outside_of_tetrahedron_planes_t a b c d in
     (* face abc *)
-    let '(closest_point, closest_set, best_dist_sq) :=
+    let '(closest_point, closest_set, best_dist_sq, t0) :=
       if oop0 then
-        let '(cp, cs) := closest_point_triangle a b c in (cp, cs, dot cp cp)
-      else (closest_point, closest_set, best_dist_sq) in
+        let '(cp, cs, tr) := closest_point_triangle_t a b c in (cp, cs, dot cp cp, [40%N] ++ tr)
+      else (closest_point, closest_set, best_dist_sq, [44%N]) in
     (* face acd *)
-    let '(closest_point, closest_set, best_dist_sq) :=
+    let '(closest_point, closest_set, best_dist_sq, t1) :=
       if oop1 then
-        let '(q, new_set) := closest_point_triangle a c d in
+        let '(q, new_set, tr) := closest_point_triangle_t a c d in
         let dist_sq := dot q q in
         if dist_sq <? best_dist_sq then
-          (q, (N.land new_set 1 + N.shiftl (N.land new_set 6) 1)%N, dist_sq)
-        else (closest_point, closest_set, best_dist_sq)
-      else (closest_point, closest_set, best_dist_sq) in
+          (q, (N.land new_set 1 + N.shiftl (N.land new_set 6) 1)%N, dist_sq, [41%N] ++ tr ++ [51%N])
+        else (closest_point, closest_set, best_dist_sq, [41%N] ++ tr ++ [55%N])
+      else (closest_point, closest_set, best_dist_sq, [45%N]) in
     (* face adb *)
-    let '(closest_point, closest_set, best_dist_sq) :=
+    let '(closest_point, closest_set, best_dist_sq, t2) :=
       if oop2 then
-        let '(q, new_set) := closest_point_triangle a d b in
+        let '(q, new_set, tr) := closest_point_triangle_t a d b in
         let dist_sq := dot q q in
         if dist_sq <? best_dist_sq then
           (q, (N.land new_set 1 + N.shiftl (N.land new_set 2) 2 + N.shiftr (N.land new_set 4) 1)%N,
-           dist_sq)
-        else (closest_point, closest_set, best_dist_sq)
-      else (closest_point, closest_set, best_dist_sq) in
+           dist_sq, [42%N] ++ tr ++ [52%N])
+        else (closest_point, closest_set, best_dist_sq, [42%N] ++ tr ++ [56%N])
+      else (closest_point, closest_set, best_dist_sq, [46%N]) in
     (* face bdc *)
-    let '(closest_point, closest_set) :=
+    let '(closest_point, closest_set, t3) :=
       if oop3 then
-        let '(q, new_set) := closest_point_triangle b d c in
+        let '(q, new_set, tr) := closest_point_triangle_t b d c in
         let dist_sq := dot q q in
         if dist_sq <? best_dist_sq then
-          (q, (N.shiftl (N.land new_set 1) 1 + N.shiftl (N.land new_set 2) 2 + N.land new_set 4)%N)
-        else (closest_point, closest_set)
-      else (closest_point, closest_set) in
-    (closest_point, closest_set).
+          (q, (N.shiftl (N.land new_set 1) 1 + N.shiftl (N.land new_set 2) 2 + N.land new_set 4)%N,
+           [43%N] ++ tr ++ [53%N])
+        else (closest_point, closest_set, [43%N] ++ tr ++ [57%N])
+      else (closest_point, closest_set, [47%N]) in
+    (closest_point, closest_set, tp ++ t0 ++ t1 ++ t2 ++ t3).
+  Definition closest_point_tetrahedron (a b c d : V3 F) : V3 F * N :=
+    fst (closest_point_tetrahedron_t a b c d).
 
   (** lines 643-651: the rows of Y kept by the bit set, in order *)
   Fixpoint update_simplex_y_from (i : nat) (Y : list (V3 F)) (simplex : N) : list (V3 F) :=
@@ -253,6 +279,26 @@ Section Simplex.
       out of bounds; [GcpFail]: the source's [return False, None, None, None]. *)
   Inductive gcp_result := GcpErr | GcpFail | GcpOk (v : V3 F) (v_len_sq : F) (simplex : N).
 
+  Definition get_closest_point_to_origin_t (Y : list (V3 F)) (n_points : nat) (prev_v_len_sqr : F)
+    : gcp_result * trace :=
+    let r : option (V3 F * N * trace) :=
+      match n_points with
+      | 1%nat => match Y with y0 :: _ => Some (y0, 1%N, []) | _ => None end
+      | 2%nat => match Y with y0 :: y1 :: _ => Some (closest_point_line_t y0 y1) | _ => None end
+      | 3%nat => match Y with y0 :: y1 :: y2 :: _ => Some (closest_point_triangle_t y0 y1 y2) | _ => None end
+      | 4%nat => match Y with y0 :: y1 :: y2 :: y3 :: _ => Some (closest_point_tetrahedron_t y0 y1 y2 y3)
+                 | _ => None end
+      | _ => None
+      end in
+    match r with
+    | None => (GcpErr, [])
+    | Some (v, simplex, t) =>
+      let v_len_sq := dot v v in
+      if v_len_sq <? prev_v_len_sqr then (GcpOk v v_len_sq simplex, t ++ [60%N])
+      else (GcpFail, t ++ [61%N])
+    end.
+  (** the plain form, written out (same text as the source; Proofs/SimplexTrace.v proves it equal
+      to the first component of the traced form) *)
   Definition get_closest_point_to_origin (Y : list (V3 F)) (n_points : nat) (prev_v_len_sqr : F)
     : gcp_result :=
     let r : option (V3 F * N) :=
